@@ -2,16 +2,37 @@
 // domains, GHSA-mqfw-f48p-2vc8).
 //
 // Runtime monitor: generated delegation trees (depth 2–4, per-level NS/DS
-// TTLs 1 s … 2 d) are served by scripted loopback authorities (authsim); the
-// REAL sdns pipeline resolves client questions against them while a virtual
-// clock (every stored instant of the answer cache and of the delegation
-// cache shifted together at quiescent points) is stepped around the leases.
-// At a generated instant the victim's parent withdraws or re-points the
-// delegation; the old child stays alive with long TTLs, announces NS sets of
-// its own and refers to itself. The parent's own wire log gives every
-// referral it sent with its NS/DS TTLs, hence the latest instant any lease
-// can run to; every client reply after that instant (+5 s) must be the new
-// parent state or SERVFAIL, and the old servers must not be asked again.
+// TTLs 1 s … 2 d, secure and insecure cuts) are served by scripted loopback
+// authorities (authsim); the REAL sdns pipeline resolves client questions
+// against them while a virtual clock (every stored instant of the answer
+// cache and of the delegation cache shifted together at quiescent points) is
+// stepped around the leases. At a generated instant the victim's parent
+// withdraws or re-points the delegation; the old child stays alive with long
+// TTLs, announces NS sets of its own and refers to itself.
+//
+// Oracle. Every server reports each referral it really SENT (NS/DS TTLs as
+// on the wire). sdns observed a referral somewhere in the window between the
+// instant it left the server and the next quiescent point; the latest end of
+// any lease is therefore max over referrals of
+//
+//	min(window end + min(NS TTL, DS TTL), window end + 12 h, lease of the level above)
+//
+// — pure arithmetic on virtual time, no slack constant, no wall-clock
+// deadline. Judged against it:
+//   - black box: every client reply later than bound + 5 s must be the new
+//     parent state or SERVFAIL (never data of the old generation), and the old
+//     servers must not be asked about the zone again;
+//   - white box, after every client question: every stored delegation
+//     deadline (authority.Delegation.ExpiresAt, both CD partitions, also
+//     while the look-up of a glue-less NS host is in flight — the provisional
+//     entry) and, while the original tree is in place, every answer-cache
+//     entry's cut deadline (CacheEntry.cutUntil, incl. the entries written by
+//     the resolver's own sub-queries and by the background refresh).
+//
+// Known finding on the unchanged tree (signatures ceiling/…): the cut
+// deadline that reaches the answer cache on a direct descent lacks the 12 h
+// ceiling — see FINDINGS.md. Anything served past what the referral TTLs
+// themselves cover has a different signature.
 // See DESIGN.md §4 C08.
 package main
 
@@ -81,11 +102,13 @@ func (run *runner) viol(sig, what string, mk func() CaseSpec) {
 	run.r.Violation(sig, what, mk())
 }
 
-const rule = "distinct_nontrivial = distinct (tree depth, victim level, withdraw|repoint, secure|insecure victim cut, smallest term of the lease formula, lease size bucket) shapes whose scenario reached judged probes after the lease bound; evaluations = client replies judged after the bound + stored delegation deadlines compared with the grant"
+const rule = "distinct_nontrivial = distinct (tree depth, victim level, withdraw|repoint, secure|insecure victim cut, smallest term of the lease formula, lease size bucket) shapes whose scenario reached judged probes after the lease bound; evaluations = client replies judged after the bound + stored delegation deadlines compared with the grant + answer-cache cut deadlines compared with the lease"
 
 func main() {
 	r := vlib.Start("C08", "exploration")
-	r.Assume("virtual time = monotonic real time + sum of VerifAdvance steps; steps happen only at quiescent points (no request in flight, prefetch idle, no resolver goroutine active), so a referral sent before a quiescent point q was observed by sdns no later than q")
+	r.Assume("virtual time = monotonic real time + sum of VerifAdvance steps; steps happen only at quiescent points (no request in flight, prefetch idle, no resolver goroutine active, no detached IPv6 enrichment job pending), so a referral sent before a quiescent point q was observed — and whatever was derived from it stored — no later than q")
+	r.Assume("the observation window of a referral is narrowed to the arrival of the first DNSKEY query for the referring zone only for referrals of level >= 2 and only when the packet log of the whole window shows a single resolution tree at work (no NS-address or root-NS question); the 12 h ceiling is always taken from the end of the full window (sdns caps relative to the instant it stores)")
+	r.Assume("CD=1 partition of the delegation cache (CD=1 clients, sdns's own look-ups below an insecure cut): sdns does not retain the referral's DS there, so its leases are compared with min(NS TTL, ancestors, 12 h); client probes are all CD=0")
 	r.Assume("circuit breaker, RTT statistics and RRSIG validity run on the real clock; all servers stay responsive and zones are signed with wide windows")
 	r.Assume("the NS-address (glue) caches of the resolver carry no lifetime and are not part of the virtual clock; the re-pointed generation uses NS host names of its own")
 	run := &runner{r: r}
@@ -174,7 +197,7 @@ func main() {
 	r.Require("judged_depth/3", int64(n/10))
 	r.Require("judged_depth/4", int64(n/10))
 	r.Require("answer_cuts_inspected", int64(n*20))
-	r.Require("mid_flight_inspections", int64(n/6))
+	r.Require("mid_flight_inspections", int64(n/12))
 	r.Require("referrals_with_narrowed_observation_window", int64(n/6))
 	r.Require("referrals_logged", int64(n*3))
 	r.Require("probes_after_bound", int64(n*8))
@@ -366,7 +389,7 @@ func (run *runner) checkLeasesAt(w *world, when string) {
 				formula = "min(NS TTL, ancestors, 12h) [CD=1 partition]"
 			}
 			run.viol(vlib.Sig("lease", "stored-deadline-exceeds-grant"),
-				fmt.Sprintf("delegation of %s (cd=%v) stored until V=%v although %s from the latest referral observation window ends at V=%v (%v too long%s) [%s]", w.apex[j], cd, expV.Round(time.Millisecond), formula, bound.Round(time.Millisecond), (expV - bound).Round(time.Microsecond), when, w.sc.Shape()),
+				fmt.Sprintf("delegation of %s (cd=%v) stored until V=%v although %s from the latest referral observation window ends at V=%v (%v too long%s) [%s]", w.apex[j], cd, expV.Round(time.Millisecond), formula, bound.Round(time.Millisecond), (expV-bound).Round(time.Microsecond), when, w.sc.Shape()),
 				func() CaseSpec {
 					c := run.caseOf(w, nil, nil)
 					c.Note = fmt.Sprintf("delegation cache entry for %s (cd=%v) expires at virtual %v, but no referral sent so far grants a lease past %v%s", w.apex[j], cd, expV, bound, when)
@@ -440,7 +463,7 @@ func (run *runner) checkCuts(w *world) {
 			run.r.Count("answer_cuts_within_lease", 1)
 		case cutV <= grant:
 			run.viol(vlib.Sig("ceiling", "answer-cut-ignores-12h-ceiling"),
-				fmt.Sprintf("answer-cache entry %s may be served until V=%v, %v after the lease of %s ends (V=%v): its cut deadline is the referral's TTL without the 12 h ceiling the delegation itself gets [%s]", id, cutV.Round(time.Millisecond), (cutV - lease).Round(time.Second), w.apex[j], lease.Round(time.Millisecond), w.sc.Shape()),
+				fmt.Sprintf("answer-cache entry %s may be served until V=%v, %v after the lease of %s ends (V=%v): its cut deadline is the referral's TTL without the 12 h ceiling the delegation itself gets [%s]", id, cutV.Round(time.Millisecond), (cutV-lease).Round(time.Second), w.apex[j], lease.Round(time.Millisecond), w.sc.Shape()),
 				func() CaseSpec {
 					c := run.caseOf(w, nil, nil)
 					c.Bound = lease.String()
@@ -450,7 +473,7 @@ func (run *runner) checkCuts(w *world) {
 				})
 		default:
 			run.viol(vlib.Sig("cut", "answer-cut-exceeds-grant"),
-				fmt.Sprintf("answer-cache entry %s may be served until V=%v although no referral sent for %s (or above) grants anything past V=%v (%v too long) [%s]", id, cutV.Round(time.Millisecond), w.apex[j], grant.Round(time.Millisecond), (cutV - grant).Round(time.Microsecond), w.sc.Shape()),
+				fmt.Sprintf("answer-cache entry %s may be served until V=%v although no referral sent for %s (or above) grants anything past V=%v (%v too long) [%s]", id, cutV.Round(time.Millisecond), w.apex[j], grant.Round(time.Millisecond), (cutV-grant).Round(time.Microsecond), w.sc.Shape()),
 				func() CaseSpec {
 					c := run.caseOf(w, nil, nil)
 					c.Bound = grant.String()
@@ -594,6 +617,15 @@ func (run *runner) runScenario(sc *Scenario) {
 	r.Count("scenarios", 1)
 	if debug {
 		fmt.Fprintln(os.Stderr, "S"+sc.String())
+	}
+	// The resolver primes the root and refreshes its trust anchors right
+	// after start-up ("./NS", "./DNSKEY"): let that finish first, so that it
+	// does not run next to the first client questions. (Not a verdict matter:
+	// if the queries do not show up the scenario simply starts.)
+	for t := time.Now(); time.Since(t) < 3*time.Second; time.Sleep(time.Millisecond) {
+		if w.u.Log.Count(0, "", ".", dns.TypeDNSKEY) > 0 {
+			break
+		}
 	}
 	if !run.quiesce(w) {
 		return
@@ -769,18 +801,18 @@ func (run *runner) runScenario(sc *Scenario) {
 				c.Granted = granted.String()
 				return c
 			}
-			if res.vEnd <= granted {
+			if res.vStart <= granted+graceAfter {
 				// past the lease only because of the 12 h ceiling: the
 				// referral's own TTLs (and every ancestor's) still cover it
 				r.Count("after_bound_old_within_parent_ttl", 1)
 				run.viol(vlib.Sig("ceiling", "served-after-12h-ceiling"),
 					fmt.Sprintf("%s answered with data (kind "+kind+") learned through the OLD delegation of %s at V=%v, %v after its lease ended (V=%v, decided by the 12 h ceiling; the referral TTLs alone run to V=%v): %s [%s]",
-						p, w.victimApex, res.vStart.Round(time.Millisecond), (res.vStart - bound).Round(time.Millisecond), bound.Round(time.Millisecond), granted.Round(time.Millisecond), detail, sc.Shape()), mk)
+						p, w.victimApex, res.vStart.Round(time.Millisecond), (res.vStart-bound).Round(time.Millisecond), bound.Round(time.Millisecond), granted.Round(time.Millisecond), detail, sc.Shape()), mk)
 				return
 			}
 			run.viol(vlib.Sig("ghost", "served-after-lease", kind),
 				fmt.Sprintf("%s answered with data learned through the OLD delegation of %s at V=%v, %v after the latest lease any referral granted (bound V=%v): %s [%s]",
-					p, w.victimApex, res.vStart.Round(time.Millisecond), (res.vStart - bound).Round(time.Millisecond), bound.Round(time.Millisecond), detail, sc.Shape()), mk)
+					p, w.victimApex, res.vStart.Round(time.Millisecond), (res.vStart-bound).Round(time.Millisecond), bound.Round(time.Millisecond), detail, sc.Shape()), mk)
 			return
 		}
 		cls := w.newTruth(p, res.reply)
@@ -795,7 +827,7 @@ func (run *runner) runScenario(sc *Scenario) {
 				c.Bound = bound.String()
 				c.Note = cls
 				r.Violation(vlib.Sig("follow", "parent-not-followed-after-lease", p.Kind),
-					fmt.Sprintf("%s at V=%v (%v past the lease bound): reply is neither SERVFAIL nor the new parent state (%s) [%s]", p, res.vStart.Round(time.Millisecond), (res.vStart - bound).Round(time.Millisecond), cls, sc.Shape()), c)
+					fmt.Sprintf("%s at V=%v (%v past the lease bound): reply is neither SERVFAIL nor the new parent state (%s) [%s]", p, res.vStart.Round(time.Millisecond), (res.vStart-bound).Round(time.Millisecond), cls, sc.Shape()), c)
 			}
 			return
 		}
